@@ -6,7 +6,10 @@
     rrl <noerror_rate> <nxdomain_rate> <error_rate> <window> <slip> <v4len> <v6len> <size> <step>;<step>;…
 
   step `s<secs>`   the hook `verif_rrl_shift(secs)`: `secs` whole seconds pass
-  step `q,<src>,<u|t>,<request>,<opcode>,<resp>,<rcode>,<qname>,<sos>,<edns>,<rnd>,<idx>,<dest>,<qhash>`
+  step `w<ms>`     the harness really sleeps `ms` milliseconds (sub-second phases; the histories
+                   that use it keep every request ≥ 0.2 s away from a whole-second boundary of its
+                   bucket and are discarded if the real clock drifted more than 0.15 s)
+  step `q,<src>,<u|t>,<request>,<opcode>,<resp>,<rcode>,<qname>,<sos>,<edns>,<rnd>,<idx>,<dest>,<qhash>,<kc>`
        one request. `src` = source address (8 hex digits IPv4, 32 hex digits IPv6, before the
        canonicalisation of `ReceivedInfo::new`); transport; the request octets (hex; used by the
        harness only, so that a replay sends exactly the same message); opcode. Recorded by the harness
@@ -15,18 +18,22 @@
        read), `sos` = the wildcard source of synthesis (`-` if none), `edns` = the response
        carries an OPT record, `rnd` = the limited response was observed slipped (used only when
        slip ≥ 2), and the probe of the real server's `RandomState`: bucket index, masked
-       destination, 32-bit QNAME hash.
+       destination, 32-bit QNAME hash; `kc` = key class: two responses of the history have the
+       same class iff the real code gives them the same key (probed on four more servers).
 
   Result: `ok <token>,<token>,…` one token per `q` step:
        `send` | `drop` | `slip:<tc>:<an>:<ns>:<ar>:<opt>` | `lim` (slip ≥ 2: limited) | `none`
-       (+ `!dest` if the probed masked destination differs from the model's).
+       (+ `!dest` if the probed masked destination differs from the model's; the whole result
+       gets `!key` if the model's keys are not equal exactly where the key classes are).
   The model runs on times `(sum of shifts so far) · 10⁹ ns`: the harness keeps the real time of a
   whole history below one second, so the whole seconds elapsed since a bucket's last refill are
   exactly the shifts (see harness/src/g_rrl.rs).
 
   The spec column is `-` when the history is outside the hypotheses of the C26/C27 theorems:
-  two different streams share a bucket (`NoBucketCollision`), two different names share a QNAME
-  hash (`HashInjectiveOn`), or a response has the key the buckets are initialised with.
+  two responses with *different keys* (key classes) share a bucket (`NoBucketCollision`), two
+  different names share a QNAME hash (`HashInjectiveOn`), or a response has the key the buckets
+  are initialised with. Responses of different streams with the *same* key class are not excused:
+  that is a violation of C27.
 
     burst <ne> <nx> <er> <window> <slip> <size> <pre> <threads> <per> <yield>
   `pre` sequential requests of one stream, then `threads × per` requests of the same stream from
@@ -55,9 +62,11 @@ structure QStep where
   idx : Nat
   dest : Nat
   qhash : Nat
+  kc : Nat
 
 inductive Step where
   | shift (secs : Nat)
+  | wait (ms : Nat)
   | q (s : QStep)
 
 def hexNat (s : String) : Option Nat :=
@@ -68,15 +77,16 @@ def nameArg (s : String) : Option (Option (List UInt8)) :=
 
 def parseStep (s : String) : Option Step :=
   if s.startsWith "s" then (s.drop 1).toString.toNat?.map Step.shift
+  else if s.startsWith "w" then (s.drop 1).toString.toNat?.map Step.wait
   else match s.splitOn "," with
-    | ["q", src, t, _req, opc, resp, rcode, qn, sos, edns, rnd, idx, dest, qh] => do
+    | ["q", src, t, _req, opc, resp, rcode, qn, sos, edns, rnd, idx, dest, qh, kc] => do
       let udp ← if t = "u" then some true else if t = "t" then some false else none
       let _ ← hexNat src
       if src.length ≠ 8 ∧ src.length ≠ 32 then none
       pure (.q { srcHex := src, udp, opcode := ← opc.toNat?, resp := ← boolArg resp,
                  rcode := ← rcode.toNat?, qname := ← nameArg qn, sos := ← nameArg sos,
                  edns := ← boolArg edns, rnd := ← boolArg rnd, idx := ← idx.toNat?,
-                 dest := ← dest.toNat?, qhash := ← qh.toNat? })
+                 dest := ← dest.toNat?, qhash := ← qh.toNat?, kc := ← kc.toNat? })
     | _ => none
 
 def parseSteps (s : String) : Option (List Step) := (s.splitOn ";").mapM parseStep
@@ -135,6 +145,7 @@ def showModelStep (p : RrlParams) (q : QStep) (c : Context) (destOk : Bool) : St
 def runModel (rs : RandomState) (p : RrlParams) : List Step → Rrl → Nat → List String → Option (List String)
   | [], _, _, acc => some acc.reverse
   | .shift secs :: rest, r, t, acc => runModel rs p rest r (t + shiftNanos secs) acc
+  | .wait ms :: rest, r, t, acc => runModel rs p rest r (t + ms * 1000000) acc
   | .q q :: rest, r, t, acc =>
     let c := mkContext q
     match processResponse rs r t q.rnd c with
@@ -154,6 +165,7 @@ def specResponse (q : QStep) (t : Nat) : Spec.Rrl.Response :=
 def timed : List Step → Nat → List (QStep × Nat)
   | [], _ => []
   | .shift secs :: rest, t => timed rest (t + secs * Spec.Rrl.second)
+  | .wait ms :: rest, t => timed rest (t + ms * 1000000)
   | .q q :: rest, t => (q, t) :: timed rest t
 
 /-- is the history inside the hypotheses under which the spec constrains the code? -/
@@ -168,9 +180,8 @@ def specApplies (cfg : Spec.Rrl.Config) (qs : List (QStep × Nat)) : Bool :=
        | .v6 _ => false)
     !initial && lim.all fun (q', t') =>
       let r' := specResponse q' t'
-      let same := decide (Spec.Rrl.SameStream cfg.v4len cfg.v6len r r')
-      -- NoBucketCollision: different streams use different buckets
-      (same || q.idx != q'.idx) &&
+      -- NoBucketCollision: different keys use different buckets
+      (q.kc == q'.kc || q.idx != q'.idx) &&
       -- HashInjectiveOn: different names (ignoring case) have different hashes
       (!(decide (Spec.Rrl.catOf q.rcode = .noerror) && decide (Spec.Rrl.catOf q'.rcode = .noerror)) ||
         decide (Spec.Rrl.foldCase r.name = Spec.Rrl.foldCase r'.name) || q.qhash != q'.qhash)
@@ -199,8 +210,18 @@ def rrlOp (a : List Nat) (stepsArg : String) : String × String :=
     | .ok p =>
       let qs := steps.filterMap fun s => match s with | .q q => some q | _ => none
       let rs := mkRandomState p qs
+      -- the model's keys must be equal exactly where the recorded key classes are
+      let subj : List (Key × Nat) := qs.filterMap fun q =>
+        if subjectToRrl (mkContext q) then
+          match keyOf rs p (mkContext q) with
+          | .ok k => some (k, q.kc)
+          | _ => none
+        else none
+      -- distinct (key, class) pairs only: histories repeat the same request many times
+      let distinct := subj.foldl (fun acc x => if acc.contains x then acc else x :: acc) []
+      let keysOk := distinct.all fun (k, c) => distinct.all fun (k', c') => decide (k = k') == (c == c')
       let m := match runModel rs p steps (Rrl.new p 0) 0 [] with
-        | some toks => "ok " ++ ",".intercalate toks
+        | some toks => "ok " ++ ",".intercalate toks ++ (if keysOk then "" else "!key")
         | none => "panic"
       let cfg : Spec.Rrl.Config := { noerrorRate := ne, nxdomainRate := nx, errorRate := er, window := w,
                                      slip, v4len, v6len }
